@@ -131,6 +131,25 @@ func scarceProfile() chain.Profile {
 	return p
 }
 
+// superProfile: nodes around the capacity threshold delegate to / undelegate from two validators,
+// third parties dilute them, some staking transactions fail half-way, nodes reset their status.
+func superProfile() chain.Profile {
+	p := payProfile()
+	p.Name = "super"
+	p.Nodes = []string{"a01", "a02", "a03"}
+	p.Gateways = []string{"a01", "a02", "a03"}
+	p.Weights = map[string]int{"Blocks": 14, "Delegate": 26, "Undelegate": 18, "ResetSuper": 10, "AddVstorage": 8, "RemoveVstorage": 8,
+		"StoreNew": 6, "Complete": 8, "Claim": 2}
+	p.Caps = []int64{1000000, 2000000, 3000000}
+	p.Sizes = []int64{1000}
+	p.Durs = []int64{3600}
+	p.Timeouts = []int64{20, 1800}
+	p.MaxData = 3
+	p.ShortBlocks = true
+	p.Staking = true
+	return p
+}
+
 func profileByName(n string) chain.Profile {
 	switch n {
 	case "pay":
@@ -143,6 +162,8 @@ func profileByName(n string) chain.Profile {
 		return rewardProfile()
 	case "scarce":
 		return scarceProfile()
+	case "super":
+		return superProfile()
 	case "did":
 		p := payProfile()
 		p.Name = "did"
